@@ -34,8 +34,10 @@ impl TryFrom<String> for BuildpackVersion {
         match value
             .split('.')
             .map(|s| {
-                // The spec forbids redundant leading zeros.
-                if s.starts_with('0') && s != "0" {
+                // The spec forbids redundant leading zeros. Since `u64::from_str` also accepts
+                // a leading `+` sign, we additionally ensure that there are only digits.
+                if (s.starts_with('0') && s != "0") || !s.bytes().all(|byte| byte.is_ascii_digit())
+                {
                     None
                 } else {
                     s.parse().ok()
